@@ -37,6 +37,7 @@ class FIXTester:
         self.registered_orders = {}
         self.schema = schema
         self._order_id = 0
+        self._order_ids = {}
         self._exec_id = 10000
         self.conn_init = connection
         self.conn_accept = None
@@ -328,10 +329,14 @@ class FIXTester:
         assert clord_id
         m[FTag.ClOrdID] = clord_id
 
-        if order.order_id is None:
-            order_id = self._next_order_id()
-        else:
+        if order.order_id is not None:
             order_id = order.order_id
+        elif order.clord_id_root in self._order_ids:
+            # reported before, but the order has not processed that report yet
+            order_id = self._order_ids[order.clord_id_root]
+        else:
+            order_id = self._next_order_id()
+            self._order_ids[order.clord_id_root] = order_id
 
         m[FTag.OrderID] = order_id
         m[FTag.ExecID] = self._next_exec_id()
